@@ -134,6 +134,59 @@ pub proof fn lemma_dotm_cons(u: Seq<R64>, y: Seq<Md>)
 }
 
 // ------------------------------------------------------------------ dotr
+// ------------------------------------------------------------------ cancellation (for uniqueness of module-valued solutions)
+pub proof fn md_cancel(t: Md, b: Md)
+    requires md_add(t, b) == b,
+    ensures t == md_zero(),
+{
+    let nb = md_sub(md_zero(), b);
+    mx_sub_add(md_zero(), b);
+    mx_add_comm(nb, b);
+    mx_add_assoc(t, b, nb);
+    mx_add_zero(t);
+}
+pub proof fn md_smul_cancel(u: real, y: Md)
+    requires md_smul(u, y) == md_zero(), u != 0real,
+    ensures y == md_zero(),
+{
+    let r = 1real / u;
+    assert(r * u == 1real) by(nonlinear_arith) requires r == 1real / u, u != 0real;
+    mx_smul_assoc(r, u, y);
+    mx_smul_one(y);
+    mx_smul_zero(r, y);
+}
+pub proof fn lemma_dotm_zeros_r(u: Seq<R64>, y: Seq<Md>)
+    requires u.len() == y.len(), forall|m: int| 0 <= m < y.len() ==> #[trigger] y[m] == md_zero(),
+    ensures dotm(u, y) == md_zero(),
+    decreases u.len(),
+{
+    if u.len() > 0 {
+        lemma_dotm_unfold(u, y);
+        lemma_dotm_zeros_r(u.drop_last(), y.drop_last());
+        assert(y.last() == md_zero());
+        mx_smul_zero(u.last()@, y.last());
+        mx_add_zero(md_zero());
+    }
+}
+/// x = z + y pointwise  ==>  <u, x> == <u, z> + <u, y>
+pub proof fn lemma_dotm_add_r(u: Seq<R64>, z: Seq<Md>, y: Seq<Md>, x: Seq<Md>)
+    requires u.len() == z.len(), u.len() == y.len(), u.len() == x.len(), forall|m: int| 0 <= m < u.len() ==> #[trigger] x[m] == md_add(z[m], y[m]),
+    ensures dotm(u, x) == md_add(dotm(u, z), dotm(u, y)),
+    decreases u.len(),
+{
+    if u.len() == 0 {
+        mx_add_zero(md_zero());
+    } else {
+        lemma_dotm_unfold(u, x);
+        lemma_dotm_unfold(u, z);
+        lemma_dotm_unfold(u, y);
+        lemma_dotm_add_r(u.drop_last(), z.drop_last(), y.drop_last(), x.drop_last());
+        assert(x.last() == md_add(z.last(), y.last()));
+        mx_smul_add(u.last()@, z.last(), y.last());
+        md_add4(dotm(u.drop_last(), z.drop_last()), dotm(u.drop_last(), y.drop_last()), md_smul(u.last()@, z.last()), md_smul(u.last()@, y.last()));
+    }
+}
+
 pub proof fn lemma_dotr_lincomb(u: Seq<R64>, v: Seq<R64>, w: Seq<R64>, y: Seq<real>, s: real)
     requires
         u.len() == v.len(), u.len() == w.len(), u.len() == y.len(),
